@@ -317,7 +317,9 @@ func (d *diff) Diff(ctx context.Context, dl Remote) (newIds, changedIds, removed
 			return
 		}
 		for i, r := range dctx.toSend {
-			d.compareResults(dctx, r, dctx.myRes[i], dctx.otherRes[i])
+			if err = d.compareResults(dctx, r, dctx.myRes[i], dctx.otherRes[i]); err != nil {
+				return
+			}
 		}
 		dctx.toSend, dctx.prepare = dctx.prepare, dctx.toSend
 		dctx.prepare = dctx.prepare[:0]
@@ -349,7 +351,9 @@ func (d *diff) CompareDiff(ctx context.Context, dl Remote) (newIds, ourChangedId
 			return
 		}
 		for i, r := range dctx.toSend {
-			d.compareResults(dctx, r, dctx.myRes[i], dctx.otherRes[i])
+			if err = d.compareResults(dctx, r, dctx.myRes[i], dctx.otherRes[i]); err != nil {
+				return
+			}
 		}
 		dctx.toSend, dctx.prepare = dctx.prepare, dctx.toSend
 		dctx.prepare = dctx.prepare[:0]
@@ -357,12 +361,12 @@ func (d *diff) CompareDiff(ctx context.Context, dl Remote) (newIds, ourChangedId
 	return dctx.newIds, dctx.changedIds, dctx.theirChangedIds, dctx.removedIds, nil
 }
 
-func (d *diff) compareResults(dctx *diffCtx, r Range, myRes, otherRes RangeResult) {
+func (d *diff) compareResults(dctx *diffCtx, r Range, myRes, otherRes RangeResult) error {
 	// both hash equals - do nothing
 	// an empty hash alone proves nothing: it stands for an empty range as well as
 	// for a range the side has no division for (the elements are sent instead)
 	if bytes.Equal(myRes.Hash, otherRes.Hash) && (len(myRes.Hash) != 0 || myRes.Count+otherRes.Count == 0) {
-		return
+		return nil
 	}
 
 	// other has elements
@@ -373,18 +377,23 @@ func (d *diff) compareResults(dctx *diffCtx, r Range, myRes, otherRes RangeResul
 			r.Elements = true
 			dctx.compareFunc(dctx, d.getRange(r).Elements, otherRes.Elements)
 		}
-		return
+		return nil
+	}
+	if r.Elements {
+		// the elements of this range were asked for explicitly; a remote whose answer still
+		// does not list them (count and elements disagree) would get the same question for ever
+		return errMismatched
 	}
 	if otherRes.Count <= d.compareThreshold && len(otherRes.Elements) == 0 || len(myRes.Elements) == myRes.Count {
 		r.Elements = true
 		dctx.prepare = append(dctx.prepare, r)
-		return
+		return nil
 	}
 	rangeTuples := genTupleRanges(r.From, r.To, d.divideFactor)
 	for _, tuple := range rangeTuples {
 		dctx.prepare = append(dctx.prepare, Range{From: tuple.from, To: tuple.to})
 	}
-	return
+	return nil
 }
 
 func (d *diff) compareElementsEqual(dctx *diffCtx, my, other []Element) {
